@@ -186,6 +186,11 @@ def akaiWalk (words : Array Nat) (st : AkaiSt) (lst : List Nat) (sub : Nat) :
       let st' : AkaiSt := { st with dirty := st.dirty.setIfInBounds sub true, prevDir := curDir }
       let next := if !curDir then v else sub + 1
       if next < size then akaiWalk words st' (sub :: lst) next
+      else if curDir then
+        -- (after the `fix:` of D18) a directory run that ends with the table's last sector is installed
+        match addLinks (sub :: lst).reverse st.links with
+        | .ok ls => .ok { st' with links := ls }
+        | .error e => .error e
       else .ok st'                                                  -- next iteration breaks at once
 termination_by (phi st.dirty.toList sub, words.size - sub)
 decreasing_by
